@@ -56,6 +56,11 @@ def gen_stream(rng, rfc, ctl, first_id, profile, ncomp=None, npairs=None):
     prios = sorted(((rng.randrange(1, 6) * 10) if ties else rng.randrange(1, 1 << rng.choice([8, 32, 62])) for _ in range(n)), reverse=True)
     weights = dict(any="ZWISFD", frozen="ZZZZZF", early="ZZZWWIF", mid="ZWIISSFD", late="ISSFFDD", done="SSFFFD", failed="FFFFFS")[profile]
     pairs = [gen_pair(rng, first_id + k, rng.randrange(1, ncomp + 1), prios[k], rng.choice(weights), rfc, ctl, nf) for k in range(n)]
+    seen = set()                       # one pair per (component, local candidate, remote candidate), as the code maintains
+    for p in pairs:
+        while (p["comp"], p["loc"], p["rem"]) in seen:
+            p["loc"] += 10
+        seen.add((p["comp"], p["loc"], p["rem"]))
     # peer-reflexive discovered pairs hang off a succeeded pair that is not itself valid
     for p in pairs:
         if p["st"] == "S" and rng.random() < 0.3:
@@ -119,6 +124,11 @@ def gen_case(rng, i, op):
     elif op == "oc":
         case["args"][0] = si; case["args"][1] = int(rng.random() < 0.65)
         case["kind"] = "oc:" + ("send-ok" if case["args"][1] else "send-fails")
+        if not case["args"][1] and rng.random() < 0.4:
+            # candidate_check_pair_fail also fails the discovered pair hanging off the pair (not reachable for a WAITING pair; harmless)
+            w = [p for p in s["pairs"] if p["st"] in "WZ"]; d = [p for p in s["pairs"] if p["st"] == "D" and not any(r["disc"] == p["id"] for r in s["pairs"])]
+            if w and d:
+                rng.choice(w)["disc"] = rng.choice(d)["id"]
     elif op == "fc":
         case["args"][0] = si; case["disc"] = int(rng.random() < 0.12)
     elif op in ("pr", "fr"):
@@ -138,10 +148,19 @@ def gen_case(rng, i, op):
         mine = [p for p in s["pairs"] if p["comp"] == cid]
         if mine and rng.random() < 0.9:
             p = rng.choice(mine); case["args"][2], case["args"][3] = p["loc"], p["rem"]
+            if rng.random() < 0.3 and len(mine) > 1 and not any(r["disc"] == p["id"] for r in s["pairs"]):
+                # the check was sent on a pair whose success produced a peer-reflexive (DISCOVERED) pair: that one is nominated instead
+                d = [q for q in mine if q is not p and not q["disc"] and not any(r["disc"] == q["id"] for r in s["pairs"])]
+                if d:
+                    q = rng.choice(d); q.update(st="D", valid=1, stun=0, retrans=0, trig=(0 if rfc else q["trig"]), nom=int(rng.random() < 0.4))
+                    p.update(st="S", valid=0, stun=0, retrans=0, disc=q["id"], nom=(0 if rfc else p["nom"]))
+                    vn = [x["prio"] for x in mine if x["valid"] and x["nom"]]
+                    if vn:
+                        s["comps"][cid - 1]["sel"] = max(s["comps"][cid - 1]["sel"], max(vn))
         else:
             case["args"][2], case["args"][3] = rng.randrange(1, 5), rng.randrange(1, 5)
         # "i = i->next" after the body deleted the link under the cursor reads freed memory: such lists are not
-        # generated (CheckListProofs.mark_nominated_cursor_*; none was found reachable)
+        # generated (CheckListProofs.mark_nominated_memory_safe / mark_nominated_cursor_freed; none was found reachable)
         if not (rfc and ctl):
             byid = {p["id"]: p for p in s["pairs"]}
             sel = s["comps"][cid - 1]["sel"]
@@ -155,8 +174,11 @@ def gen_case(rng, i, op):
                     sel = max(sel, t["prio"])
                 if (t["nom"] or t["valid"] or not rfc) and removable(p, cid, max(sel, 1)):
                     # make the cursor pair one the pruning keeps
-                    p["st"] = rng.choice("SF") if not p["trig"] else "I"
-                    p["stun"] = p["retrans"] = 0
+                    if p["st"] == "D" or p["disc"]:
+                        p["trig"] = 0
+                    else:
+                        p["st"] = rng.choice("SF") if not p["trig"] else "I"
+                        p["stun"] = p["retrans"] = 0
         case["kind"] = "mn:" + ("rfc" if rfc else "google") + (":ctl" if ctl else ":cted")
     return case
 
